@@ -16,7 +16,7 @@ vars == <<s, g, last>>
 K == [interval |-> Interval, maxReorg |-> MaxReorg, trusted |-> Trusted,
       popFirst |-> PopFirst, keepDecode |-> KeepDecode]
 Contents == IF NL = 2 THEN {"e", "f1", "d1", "f2", "d2"} ELSE {"e", "f1", "d1"}
-Reqs == Requests(MaxDev, Contents, {0, 2, 3, -1})
+Reqs == Requests(MaxDev, Contents, {0, 2, 3, -1, -2})
 Probes == {r \in Reqs : r.probe = 1}
 
 Hdr(i, fh) == [id |-> "A" \o ToString(i), p |-> IF i = 0 THEN "?" ELSE "A" \o ToString(i - 1),
